@@ -25,6 +25,8 @@ type profile struct {
 	prune     bool
 	inits     bool
 	maxID     int
+	failBias  bool  // fault lists are mostly failures (long failure streaks)
+	afters    []int // gaps between script steps (ms)
 }
 
 func genCase(t *rapid.T, p profile) Case {
@@ -41,15 +43,23 @@ func genCase(t *rapid.T, p profile) Case {
 	if p.inits {
 		c.Inits = rapid.IntRange(0, 2).Draw(t, "inits")
 	}
+	afters := p.afters
+	if afters == nil {
+		afters = []int{0, 0, 1, 3, 5, 10, 20, 50, 200}
+	}
 	step := rapid.Custom(func(t *rapid.T) Step {
 		return Step{
-			After: rapid.SampledFrom([]int{0, 0, 1, 3, 5, 10, 20, 50, 200}).Draw(t, "after"),
+			After: rapid.SampledFrom(afters).Draw(t, "after"),
 			Kind:  rapid.SampledFrom(p.stepKinds).Draw(t, "kind"),
 			ID:    rapid.IntRange(1, p.maxID).Draw(t, "id"),
 		}
 	})
 	c.Script = vk.Ops(t, step, 10, "script")
-	outcomes := rapid.SliceOfN(rapid.Bool(), 0, p.maxFaults)
+	outcome := rapid.Bool()
+	if p.failBias {
+		outcome = rapid.SampledFrom([]bool{true, true, true, false})
+	}
+	outcomes := rapid.SliceOfN(outcome, 0, p.maxFaults)
 	nFaulty := rapid.IntRange(0, p.maxID).Draw(t, "nFaulty")
 	for i := 0; i < nFaulty; i++ {
 		id := rapid.IntRange(1, p.maxID).Draw(t, "faultyID")
@@ -546,7 +556,7 @@ func checkPacing(w *world) (string, error) {
 	return "", nil
 }
 
-var profC16 = profile{stepKinds: []int{stUpsert, stUpsert, stUpsert, stDelete}, injKinds: []int{0, 0, 0, 0, 1}, maxFaults: 8, waits: true, maxID: 4}
+var profC16 = profile{stepKinds: []int{stUpsert, stUpsert, stUpsert, stDelete}, injKinds: []int{0, 0, 0, 0, 1}, maxFaults: 8, waits: true, maxID: 3, failBias: true, afters: []int{0, 1, 5, 20, 50, 200, 200, 1000, 3000}}
 
 const ruleC16 = "the C14 stack with longer per-object fail/succeed sequences (<= 8), several objects failing at once, object changes interleaved and a side goroutine calling WaitUntilReconciled(rev) for revisions of earlier user writes at generated instants; all attempts carry exact virtual timestamps. Checked over the call log: a retry never starts sooner than the minimum backoff after the failed attempt ended (no change in between); on stretches where nothing else is due the gap does not exceed maximum backoff + 2 rounds and does not shrink from one consecutive failure to the next; the first retry of a new failure streak (after a change or a success) uses the initial wait; WaitUntilReconciled returning nil implies every pending change up to its argument had been attempted by then; at the end the low-watermark is 0. During the run (at quiescent instants) the low-watermark is compared with the log in TestC16LowWatermark. Non-trivial = >= 2 consecutive failures of one object; distinct by case encoding."
 
